@@ -13,6 +13,8 @@ fn fmt_name(f: Fmt) -> &'static str {
         Fmt::Json => "json",
         Fmt::Ron => "ron",
         Fmt::MsgPack => "msgpack",
+        Fmt::JsonReader => "json-reader",
+        Fmt::JsonValue => "json-value",
     }
 }
 
@@ -35,7 +37,7 @@ pub fn check<I: Inputs>(vt: &'static Vt<I>, ctx: &Ctx) -> DeclReport {
         let j = v.to_json().to_string();
         let special = !j.is_ascii() || j.contains('\\') || j.contains("e") || v.weight() > (1u128 << 60) || j.contains("-0") || v.near_bound(m);
         let class = if special { "value-special" } else { "value-plain" };
-        for f in FMTS {
+        for f in ALL_FMTS {
             let sig = |w: &str| format!("C10|{}|{}|{w}|sans={}|vals={}", I::NAME, fmt_name(f), san_names(m), val_names(m));
             let got = match no_panic(|| ser(raw.clone(), f)) {
                 Ok(Some(r)) => r,
